@@ -139,6 +139,10 @@ def C19(tier, seed):
             "seg ids arbitrary integers" % ((3, 2) if q else (4, 3))),
     ]
     runs += [
+        Run("unique:uint8:T3xP2", labels.unique_harness, dict(shape=(3, 2), dtype="uint8"), labels.unique_replay,
+            ("returned", "witness:two_frames_labelled"),
+            "uint8 label array (cells 0..255): 8/16/32-bit integer arrays wrap around in the model as in numpy, so a "
+            "result computed in the input's narrow dtype is seen to collide"),
         Run("unique:bounded_labels:2x2", labels.unique_harness, dict(shape=(2, 2) if q else (3, 2), max_label=2),
             labels.unique_replay, ("returned",), "cell labels 0..2: unmodelled numpy calls are followed by realising "
             "the array (case split over cell values) instead of ending inconclusive"),
@@ -146,7 +150,8 @@ def C19(tier, seed):
             labels.bytrack_replay, ("returned",), "forest on <= 2 (3) detections, 2x2 cells, labels and seg ids 0..2"),
     ]
     return run_property("C19", tier, runs, explanation=R.EXPL, seed=seed, assumptions=[
-        "labels are non-negative mathematical integers (uint64 wrap-around outside the claim)",
+        "labels are non-negative integers of the array's dtype; arithmetic and stores in 8/16/32-bit integer arrays wrap "
+        "around as in numpy, 64-bit arithmetic is mathematical (uint64 wrap-around outside the claim)",
         "detections of the solution graph are distinct (time, seg_id) pairs with time inside the array",
         "SArr model conforms to numpy for the operations used (self-test)"],
         stubs=["numpy ndarray -> SArr (symbolic cells)"])
@@ -249,6 +254,10 @@ def C13(tier, seed):
             ("relabelled", "shifted", "unshifted"), b),
         Run("handle_segmentation", relabel.harness, dict(T=T, P=P, M=2 if q else 3, via_builder=True), relabel.replay,
             ("relabelled", "shortcut"), b.replace("<=%d" % M, "<=%d" % (2 if q else 3))),
+        Run("relabel_segmentation:uint8_array:ids_254..258", relabel.harness,
+            dict(T=2, P=2, M=2, dtype="uint8", idlo=254, idmax=4), relabel.replay, ("relabelled",),
+            "uint8 label array (cells 0..255), node ids 254..258: 8/16/32-bit arrays wrap around in the model as in "
+            "numpy, so an output kept in the input's narrow dtype is seen to lose ids >= 256"),
         Run("relabel_segmentation:bounded_labels", relabel.harness,
             dict(T=2, P=2, M=2, max_label=2, idmax=2, segmax=2) if q else dict(T=2, P=2, M=2, max_label=3, idmax=3,
                                                                                segmax=3),
